@@ -22,7 +22,7 @@ v("C01", "refresh-reads-revision-outside-snapshot", HB,
   "rev, updateErr := e.kv.Update(e.key, payloadBytes, e.revision.Load(), opts...)",
   ["C01-R3"], "the refresh goroutine re-reads the revision field without the mutex instead of using the snapshot")
 v("C01", "delete-without-ownership-check", KV,
-  "if !e.ownsRecord(termToken) {", "if termToken == \"\" {", ["C01-R6"], "StopWithContext deletes the key without verifying ownership")
+  "ownedRev, owned := e.ownsRecord(termToken)\n\t\tif !owned {", "ownedRev, owned := uint64(0), termToken != \"\"\n\t\tif !owned {", ["C01-R6"], "StopWithContext deletes the key without verifying ownership")
 v("C01", "observe-leader-while-leader", KV,
   "\tif e.isLeader.Load() {\n\t\treturn\n\t}\n\te.leaderID.Store(id)", "\te.leaderID.Store(id)",
   ["C01-R4"], "observeLeader stores observed revisions even while the instance is leader")
@@ -166,6 +166,8 @@ v("C07", "validation-timeout-fixed", FE, "\tif half := e.cfg.HeartbeatInterval /
 v("C08", "demotion-result-lost", KV, "\tif ctx := e.ctx; ctx != nil && !e.watcherRunning.Load() {", "\tif e.ctx == nil {\n\t\treturn false\n\t}\n\tif ctx := e.ctx; ctx != nil && !e.watcherRunning.Load() {", ["C08-R2"], "enterFollowerState returns false after it cleared a standing claim")
 v("C13", "preempts-nameless-record", KV, "\tif currentPayload.ID == \"\" {\n\t\treturn fmt.Errorf(\"priority takeover skipped (record names no leader)\")\n\t}\n", "", ["C13-R6"], "a record that is valid JSON but no leadership payload is preempted as priority 0")
 v("C08", "failed-stop-silent", KV, "\t\tif wasLeader && hasOnDemote {\n\t\t\te.notifyDemotedByFailedStop()\n\t\t}\n\t\treturn fmt.Errorf(\"shutdown timeout exceeded: %v\", timeout)", "\t\treturn fmt.Errorf(\"shutdown timeout exceeded: %v\", timeout)", ["C08-R2"], "a StopWithContext that times out clears the claim without OnDemote")
+v("C01", "shutdown-delete-unconditional", KV, "\tif rd, ok := e.kv.(RevisionDeleter); ok {\n\t\treturn rd.DeleteRevision(e.key, rev)\n\t}\n", "\t_ = rev\n", ["C01-R7"], "the shutdown deletion ignores the revision of the ownership read")
+v("C14", "delete-revision-without-option", EL, "return a.kv.Delete(key, nats.LastRevision(rev))", "_ = rev\n\treturn a.kv.Delete(key)", ["C14-R2"], "the adapter's conditional delete is unconditional")
 # ---- C19
 v("C19", "demotion-does-not-cancel", KV, "\tif e.termCancel != nil {\n\t\te.termCancel()\n\t\te.termCancel = nil\n\t}\n", "", ["C19-R1"], "demotion no longer cancels the term context")
 v("C19", "promotion-context-from-background", KV, "promoteCtx, cancel := context.WithCancel(termCtx)", "_ = termCtx\n\t\t\tpromoteCtx, cancel := context.WithCancel(context.Background())", ["C19-R1"], "the promotion context is detached from the term")
